@@ -121,6 +121,21 @@ def run_case(c):
         for ti, t in enumerate(p["tracks"]):
             sub = dict(p, tracks=[t])
             R.append(play_rec("play_Track", sub, lambda s: s.play_Track(comp.tracks[ti], 9, bpm)))
+            # the same voice built entry by entry through Track.add_notes (bars open by themselves) instead of bar by bar
+            if all(list(b["meter"]) == [4, 4] for b in t["bars"]):
+                from mingus.containers import Track as _Track
+                from .values import build as _build
+                alt = _Track()
+                okb = True
+                for b in t["bars"]:
+                    for e in b["entries"]:
+                        try:
+                            if not alt.add_notes(None if e["rest"] else mk_container(e), _build(e["v"])):
+                                okb = False
+                        except Exception:
+                            okb = False
+                if okb and len(alt.bars) == len(t["bars"]):
+                    R.append(play_rec("play_Track", sub, lambda s: s.play_Track(alt, 9, bpm), {"built": "add_notes"}))
             sub2 = dict(p, tracks=[dict(t, bars=[t["bars"][0]])])
             R.append(play_rec("play_Bar", sub2, lambda s: s.play_Bar(comp.tracks[ti].bars[0], 9, bpm)))
             for e in t["bars"][0]["entries"]:
